@@ -57,6 +57,42 @@ def tamper_walk(w, tier, rng, o, goal, size, p_id):
     return cid
 
 
+def e2e_walk(w, tier, rng, g1, g2):
+    """two circuits (g1 and g2 hops) that end in the same rendezvous node are linked (hidden services); data flows in
+    both directions under the extra end-to-end layer; on every link a copy of the cell is altered and delivered; the
+    rendezvous point - which holds the hop keys of both halves - forges cells without the end-to-end key"""
+    a = K.build(w, "o", g1)
+    b = K.build(w, "o2", g2)
+    st = w.project()
+    ex = sorted(e["cid"] for e in st["exit"]["x"])
+    w.link_e2e("x", ex[0], ex[1], "o", a, "o2", b)
+    p = 0
+    for sender, cid, size in (("o", a, 0), ("o2", b, 100), ("o", a, 900)):
+        p += 1
+        w.send_e2e(sender, cid, p, size=size)
+        for _ in range(12):
+            if not w.net.inflight:
+                break
+            d = w.net.inflight[0]
+            for bit, pos in enumerate(positions(len(d.data), "quick", rng)[::3 if tier == "quick" else 1]):
+                w.dup(d.seq)
+                cp = w.net.inflight[-1]
+                w.tamper_at(cp.seq, pos, bit % 8)
+                if any(x.seq == cp.seq for x in w.net.inflight):
+                    w.deliver(cp.seq)
+                for _k in range(8):
+                    extra = [x for x in w.net.inflight if x.seq > cp.seq]
+                    if not extra:
+                        break
+                    w.deliver(extra[0].seq)
+            w.deliver(d.seq)
+    for entry in sorted(r["cid"] for r in w.project()["relay"]["x"] if r["rdv"]):
+        w.rp_forge("x", entry)
+        while w.net.inflight:
+            w.deliver(w.net.inflight[0].seq)
+    w.run_until(w.now_ms() + 9000)      # pings travel through the rendezvous point, too
+
+
 def run(tier, seed, replay=None):
     setup_repo_path()
     import random
@@ -67,10 +103,11 @@ def run(tier, seed, replay=None):
                        "and evaluates ExitIntegrity, ReturnIntegrity, LayerDepth, NoRepeatOnLinks on it; non-trivial = distinct "
                        "executions containing data transfer or an attack step")
     ctx.assumptions += ["ChaCha20-Poly1305 / HKDF / X25519 of ipv8_rust_tunnels are idealised (symbolic AEAD, Dolev-Yao)",
-                        "only PythonCryptoEndpoint (not the Rust endpoint fast path); e2e (hidden-service) circuits and "
-                        "test-request cells are not driven", "payload sizes {0, 1, 100, 900} (+1400 thorough), not all 0..MTU"]
+                        "only PythonCryptoEndpoint (not the Rust endpoint fast path); for e2e (hidden-service) circuits the "
+                        "rendezvous link and the shared end-to-end key are set up by the harness on the real tables (the "
+                        "create-e2e/link-e2e handshake is not driven); test-request cells are not driven", "payload sizes {0, 1, 100, 900} (+1400 thorough), not all 0..MTU"]
     rng = random.Random(seed)
-    bg = K.Background(["Onion_c04_g3.cfg"] + (["Onion_c04_g12.cfg"] if tier == "thorough" else []),
+    bg = K.Background(["Onion_c04_g3.cfg", "Onion_c04_e2e_q.cfg"] + (["Onion_c04_g12.cfg", "Onion_c04_e2e.cfg"] if tier == "thorough" else []),
                       [("Onion_c04_noaead.cfg", "ExitIntegrity",
                         "spec without AEAD authentication delivers altered data (ExitIntegrity violated)")])
     nseeds = 4 if tier == "quick" else 20
@@ -100,6 +137,20 @@ def run(tier, seed, replay=None):
             finally:
                 w.close()
     K.validate_family(ctx, PID, walks, "line4", hdr, "tamper-walk", NONTRIVIAL)
+    e2e = []
+    for i, (g1, g2) in enumerate([(1, 1), (2, 2)] if tier == "quick" else [(1, 1), (1, 2), (2, 1), (2, 2), (1, 3), (3, 1)]):
+        w = R.world("two_origins", seed * 100 + 70 + i)
+        try:
+            e2e_walk(w, tier, rng, g1, g2)
+            tr = {"events": w.events, "topology": "two_origins", "seed": seed, "profile": "e2e %d+%d hops" % (g1, g2)}
+            K.check_escapes(ctx, w, tr, "e2e")
+            e2e.append(tr)
+            hdr_e = w.header()
+        finally:
+            w.close()
+    K.validate_family(ctx, PID, e2e, "two_origins", hdr_e, "e2e", NONTRIVIAL | {"SendE2E", "RPForge"})
+    ctx.note("e2e", {"runs": len(e2e), "events": sum(len(t["events"]) for t in e2e),
+                     "forged_by_rendezvous": sum(1 for t in e2e for e in t["events"] if e["a"] == "RPForge")})
     ctx.note("tamper_walk", {"walks": len(walks), "events": sum(len(t["events"]) for t in walks),
                              "altered_copies": sum(1 for t in walks for e in t["events"] if e["a"] in ("Tamper", "TamperHeader", "Splice"))})
     bg.collect(ctx)
